@@ -22,7 +22,8 @@ from ..cfg import cfg_of
 from ..flow import ERROR
 from ..model import UNKNOWN, AnchorError, Func, UnknownIdiom, attr_chain, local_names, short, walk_no_nested
 from .c13_helpers import Defs, resolve_alias
-from .c15_helpers import (ASGI_RESPONSE, RESPONSE, Provenance, Site, controlling_edges, header_sites, is_lower_call, key_case, raises_only,
+from .c15_helpers import (ASGI_RESPONSE, RESPONSE, Provenance, Site, controlling_edges, header_sites, helper_returns, is_lower_call, key_case,
+                          key_helper, raises_only,
                           reaching, response_receiver, store_exprs)
 from .common import enclosing_map, implied, single, strip_await, walk_self, stmts_walk
 
@@ -116,10 +117,57 @@ def _extra_writes(p, f, cfg) -> List[int]:
     return out
 
 
+def _not_cookie(p, f: Func, name: str, nid: int, refusing: List[Func], depth: int = 0) -> bool:
+    """The value of the local `name` at cfg node `nid` of f is proven to differ from 'set-cookie':
+    (a) the node is dominated by the "not set-cookie" outcome of a comparison of that same value (same reaching
+        definitions) with 'set-cookie', or
+    (b) every reaching definition binds the result of a module-level helper (`name = _plain_header_name(name, msg)`)
+        and every return of that helper is a literal other than set-cookie or a local proven by (a)/(b) inside the
+        helper.  The helpers relied upon are collected in `refusing`: what they do on the set-cookie outcome is judged
+        by the caller (it must raise)."""
+    cfg = cfg_of(f, p)
+    rd = reaching(p, f)
+    here = {d.idx for d in rd.at(nid, name)}
+    for (edge, is_cookie) in _guard_edges(p, f, cfg, name):
+        if is_cookie:
+            continue
+        if not flow.dominated_by_edge(cfg, nid, edge):
+            continue
+        # the compared value is the value used as the key
+        there = {d.idx for d in rd.at(edge[0], name)}
+        if there == here:
+            return True
+    ds = rd.at(nid, name)
+    if not ds or depth >= 2:
+        return False
+    helpers = []
+    for d in ds:
+        g = key_helper(p, f, d.value) if d.kind == 'assign' and d.value is not None else None
+        if g is None:
+            return False
+        helpers.append(g)
+    for g in helpers:
+        for (rn, rv) in helper_returns(p, g):
+            rv = strip_await(rv)
+            v = p.fold(g.module, rv, None, g)
+            if isinstance(v, str):
+                if v.lower() == 'set-cookie':
+                    return False
+                continue
+            if not (isinstance(rv, ast.Name) and rv.id in local_names(g)):
+                raise UnknownIdiom('%s: the helper returns %s as a header name' % (g.qual, short(rv)))
+            if not _not_cookie(p, g, rv.id, rn, refusing, depth + 1):
+                return False
+        if g not in refusing:
+            refusing.append(g)
+    return True
+
+
 def r2_set_cookie_guard(run):
     p = run.project
     _require_stores(p)
     n_guarded = 0
+    via_helper: Dict[str, Tuple[Func, List[Func]]] = {}
     for s in _sites(run):
         f = s.func
         key = strip_await(s.key)
@@ -132,26 +180,18 @@ def r2_set_cookie_guard(run):
         if key.id not in local_names(f):
             # closure variable of the property factory: decided at the call sites below
             continue
-        cfg = cfg_of(f, p)
         rd = reaching(p, f)
         nid = rd.cfg_node(s.node)
         if nid is None:
             raise UnknownIdiom('%s: no CFG node for %s' % (f.qual, short(s.node)))
-        guards = _guard_edges(p, f, cfg, key.id)
-        here = {d.idx for d in rd.at(nid, key.id)}
-        ok = False
-        for (edge, is_cookie) in guards:
-            if is_cookie:
-                continue
-            if not flow.dominated_by_edge(cfg, nid, edge):
-                continue
-            # the compared value is the value used as the key
-            there = {d.idx for d in rd.at(edge[0], key.id)}
-            if there == here:
-                ok = True
+        refusing: List[Func] = []
+        ok = _not_cookie(p, f, key.id, nid, refusing)
+        if ok and refusing:
+            via_helper.setdefault(f.qual, (f, []))[1].extend(g for g in refusing if g not in via_helper[f.qual][1])
         n_guarded += 1
         run.check(ok, 'the %s access to the header dict with a caller-supplied name is dominated by the "not set-cookie" outcome of a '
-                  'comparison of that same name with \'set-cookie\'' % s.kind, f, s.node,
+                  'comparison of that same name with \'set-cookie\' (made in place or inside the module-level helper that returns the name)'
+                  % s.kind, f, s.node,
                   runtime_witness="resp.%s('Set-Cookie', ...) reads/overwrites/deletes cookie lines through the plain-header API" % f.name)
     if n_guarded == 0:
         raise AnchorError('no header access keyed by a caller-supplied name found')
@@ -164,6 +204,20 @@ def r2_set_cookie_guard(run):
     for q, (f, keyname) in sorted(seen_funcs.items()):
         cfg = cfg_of(f, p)
         cookie_edges = [e for (e, is_cookie) in _guard_edges(p, f, cfg, keyname) if is_cookie]
+        for g in (via_helper.get(q, (f, []))[1] if not cookie_edges else []):
+            # the comparison lives in a helper: its set-cookie outcome must refuse (a helper cannot route to _extra_headers
+            # of a response it is not handed; if it is, the shape is not read)
+            gcfg = cfg_of(g, p)
+            run.use_cfg(gcfg)
+            gedges = []
+            for lname in sorted(local_names(g)):
+                gedges += [e for (e, is_cookie) in _guard_edges(p, g, gcfg, lname) if is_cookie]
+            if not gedges:
+                raise UnknownIdiom('%s: no set-cookie outcome found in the helper %s relied upon' % (f.qual, g.qual))
+            for e in gedges:
+                run.check(raises_only(gcfg, e[1]), '%s: a Set-Cookie name is refused with an exception (inside %s)' % (f.name, g.name), g,
+                          gcfg.node(e[0]).ast, where='%s:%s' % (g.file, gcfg.node(e[0]).lineno),
+                          runtime_witness="resp.%s('Set-Cookie', ...) silently succeeds" % f.name)
         if not cookie_edges:
             continue   # reported above (no guard at all)
         extra = _extra_writes(p, f, cfg)
